@@ -28,8 +28,21 @@ def _limit_fsize(nbytes):
     return f
 
 
-def run_bin(binpath, args, timeout=120, stdin=None, fsize=None):
+def run_bin(binpath, args, timeout=120, stdin=None, fsize=None, closed_stdout=False):
     t0 = time.time()
+    if closed_stdout:
+        # stdout is a pipe whose read end is already closed (the reader of `cdecao --print | head` is gone): every write fails with EPIPE
+        rfd, wfd = os.pipe()
+        os.close(rfd)
+        try:
+            p = subprocess.run([binpath] + [str(a) for a in args], stdout=wfd, stderr=subprocess.PIPE, timeout=timeout,
+                               env={"RUST_LOG": "info", "PATH": os.environ.get("PATH", "")}, input=stdin,
+                               preexec_fn=_limit_fsize(fsize) if fsize is not None else None)
+            return {"rc": p.returncode, "stdout": "", "stderr": p.stderr.decode("utf-8", "replace"), "timeout": False, "wall": time.time() - t0}
+        except subprocess.TimeoutExpired as ex:
+            return {"rc": None, "stdout": "", "stderr": (ex.stderr or b"").decode("utf-8", "replace"), "timeout": True, "wall": time.time() - t0}
+        finally:
+            os.close(wfd)
     try:
         p = subprocess.run([binpath] + [str(a) for a in args], stdout=subprocess.PIPE, stderr=subprocess.PIPE, timeout=timeout,
                            env={"RUST_LOG": "info", "PATH": os.environ.get("PATH", "")}, input=stdin,
@@ -293,6 +306,75 @@ def run_wide_family(ctx, binpath, seed, count, threads=(1, 6, 16)):
 
     with ThreadPoolExecutor(max_workers=8) as ex:
         return list(ex.map(work, tasks))
+
+
+def large_instance(r):
+    """a large instance: one plenary course with a minimum size above 100 (percentages and ranks computed from sizes of that magnitude differ
+    from what small instances show), two or three small courses, 105-160 participants most of whom want the plenary first; no instructors
+    with own choices (outside class TC)"""
+    mn = r.randint(101, 130)
+    mx = mn + r.randint(0, 30)
+    nsmall = r.randint(2, 3)
+    courses = [{"name": "Plenum", "num_min": mn, "num_max": mx, "instructors": [], "fixed_course": r.random() < 0.2}]
+    for k in range(nsmall):
+        lo = r.randint(0, 4)
+        courses.append({"name": "Klein %d" % k, "num_min": lo, "num_max": lo + r.randint(2, 12), "instructors": []})
+    # the number of people who want the plenary is close to its minimum: just below, at, or above
+    want = mn + r.choice([-3, -2, -1, -1, 0, 1, 2, 5])
+    others = r.randint(3, 20)
+    parts = []
+    for i in range(want):
+        alt = r.sample(range(1, nsmall + 1), r.randint(0, min(2, nsmall)))
+        parts.append({"name": "P%03d" % i, "choices": [{"course": 0, "penalty": 0}] + [{"course": c, "penalty": k + 1} for k, c in enumerate(alt)]})
+    for i in range(others):
+        cs = r.sample(range(1, nsmall + 1), r.randint(1, nsmall))
+        if r.random() < 0.5:
+            cs.append(0)
+        parts.append({"name": "Q%03d" % i, "choices": [{"course": c, "penalty": k} for k, c in enumerate(cs)]})
+    if r.random() < 0.5:
+        # an instructor without choices for one small course
+        courses[1]["instructors"] = [len(parts)]
+        parts.append({"name": "Leitung", "choices": []})
+    r.shuffle(parts)
+    # instructor indices after the shuffle
+    for c in courses:
+        c["instructors"] = [i for i, p in enumerate(parts) if p["name"] == "Leitung"] if c["instructors"] else []
+    return {"format": "X-coursedata-simple", "version": "1.0", "participants": parts, "courses": courses}
+
+
+def g_inst_terms(inst):
+    """(g_courses, g_parts) : the Gallina terms CorrCli.cli_case expects, from a simple-format document (factor 1, offset 0)"""
+    gc = "[" + "; ".join("(%d%%nat, %d%%nat, [%s], %s, 1065353216%%Z, 0%%Z)" % (c["num_min"], c["num_max"], "; ".join("%d%%nat" % i for i in c.get("instructors", [])),
+                                                                              "true" if c.get("fixed_course") else "false") for c in inst["courses"]) + "]"
+    gp = "[" + "; ".join("[" + "; ".join("(%d%%nat, %d%%Z)" % (ch["course"], ch["penalty"]) for ch in p["choices"]) + "]" for p in inst["participants"]) + "]"
+    return gc, gp
+
+
+def run_large_family(ctx, binpath, seed, count, threads=(1, 3)):
+    """runs the binary on `count` large instances; the output files are judged by CorrCli.check_cli (hard constraints, score, quality, array)"""
+    import random
+    d = os.path.join(ctx.work, "cli")
+    os.makedirs(d, exist_ok=True)
+    r = random.Random(seed)
+    recs, texts = [], []
+    for k in range(count):
+        inst = large_instance(r)
+        f = os.path.join(d, "large_%03d.json" % k)
+        json.dump(inst, open(f, "w"))
+        gc, gp = g_inst_terms(inst)
+        meta = {"g_courses": gc, "g_parts": gp, "hidden": [[] for _ in inst["courses"]]}
+        for th in threads:
+            o = os.path.join(d, "large_out_%03d_%d.json" % (k, th))
+            if os.path.exists(o):
+                os.remove(o)
+            run = run_bin(binpath, ["--num-threads", str(th), f, o], timeout=300)
+            out = parse_output_file(o) if os.path.exists(o) else None
+            recs.append({"inst": inst, "file": f, "threads": th, "run": run, "out": out})
+            texts.append(g_cli_case(meta, None, out if isinstance(out, tuple) else None, None))
+    codes = eval_cli_cases(ctx, texts)
+    for rec, c in zip(recs, codes):
+        rec["code"] = c
+    return recs
 
 
 def parse_output_file(path):
